@@ -354,7 +354,7 @@ Proof.
   - inversion Hnd as [|? ? Hit Hrest]; subst. inversion Hat as [|? ? Hat1 Hat2]; subst. inversion Hnn as [|? ? Hnn1 Hnn2]; subst.
     cbn [conds_okb forallb] in Hok. apply andb_true_iff in Hok as [O1 O2]. fold (conds_okb items) in O2.
     destruct it as [r args conds|c|x gg xs|out a bound r args|r args|ds]; try (destruct Hit; fail); try (destruct Hnn1; fail).
-    + rewrite rep_items_clause. cbn [fst]. destruct (IH (rh (rep_args G [] cs args) ++ G) (rs (rep_args G [] cs args)) Hrest Hat2 Hnn2 O2) as [A B].
+    + rewrite rep_items_clause. cbn [fst]. destruct (IH (flat_map cond_grounds conds ++ rh (rep_args G [] cs args) ++ G) (rs (rep_args G [] cs args)) Hrest Hat2 Hnn2 O2) as [A B].
       destruct (rep_args_conds args G [] cs Hat1) as [C D]. split.
       * constructor; [|exact A]. split; [apply rep_args_AT; exact Hat1|]. apply Forall_app. split; [exact C|].
         apply Forall_forall. intros c Hc. apply cond_okb_ok. rewrite forallb_forall in O1. apply O1. exact Hc.
